@@ -4,6 +4,7 @@ package mcrt
 type WaitGroup struct {
 	n       int
 	waiters []*Thread
+	toks    []*tok
 }
 
 func (wg *WaitGroup) Add(n int) {
@@ -31,6 +32,8 @@ type Mutex struct {
 	locked  bool
 	readers int
 	waiters []*Thread
+	toks    []*tok
+	rtoks   []*tok
 }
 
 func (m *Mutex) lockOp(k opKind) {
